@@ -73,10 +73,6 @@ def construct(tree):
     raise ValueError(mode)
 
 
-def canon(t):
-    return [t["cls"], sorted([n, (v if not is_comp(v) else [canon(x) for x in (v["l"] if "l" in v else [v["o"]])])] for n, v in t["kw"] if v is not None)]
-
-
 def accepts(o, member, cls_name):
     """add() finds its target by comparing the MemberSpec's type name with the class name; a few members are declared
     with another name than the class that is built for them (LEMS_Property ...): add() has no target for those"""
@@ -93,8 +89,10 @@ def fill_by_add(o, tree):
         leaf = not any(is_comp(v) for _, v in k["kw"])
         # build-time validation of the child and of the parent when both are complete (last child, itself childless)
         val = leaf and i == len(kids) - 1
-        key = json.dumps([member, canon(k)])
-        force = key in seen          # add() refuses an equal sibling unless forced
+        # add() refuses a sibling equal to one already in the list unless forced; at the time of the add only the scalar
+        # members of the new child exist, so siblings with equal scalars are forced
+        key = json.dumps([member, k["cls"], sorted([n, v] for n, v in k["kw"] if v is not None and not is_comp(v))])
+        force = key in seen
         seen.append(key)
         if not accepts(o, member, k["cls"]):
             BUILD[0] = "class-factory"
